@@ -131,6 +131,7 @@ void Sim::log_tcp_connect(error_code ec, const std::string& ip, uint16_t port) {
 void Sim::log_connack(uint8_t rc, bool sp, const mq::Props& props) {
     LogRec r; r.k = LogRec::connack; r.seq = w.next_seq(); r.t = w.now; r.rc = rc; r.session_present = sp; r.props = props;
     logs.push_back(r);
+    connack_log_step = w.steps;
     w.tr("log_connack", rc, sp);
 }
 void Sim::log_disconnect(uint8_t rc, const mq::Props& props) {
@@ -138,11 +139,20 @@ void Sim::log_disconnect(uint8_t rc, const mq::Props& props) {
     logs.push_back(r);
     w.tr("log_disconnect", rc);
 }
-std::pair<bool, std::string> Sim::auth_step(int step, const std::string& data) {
+std::pair<bool, std::string> Sim::auth_step(int step, const std::string& data, bool* posted) {
+    if (posted) *posted = plan.knobs.client.auth_posted;
     LogRec r; r.k = LogRec::auth_step; r.seq = w.next_seq(); r.t = w.now; r.step = step; r.s1 = data;
-    logs.push_back(r);
     bool fail = (!healed && auth_fail_step == step);
     if (fail) { w.count("fault.auth_fail"); auth_fail_step = -1; }
+    r.n = fail ? 1 : 0;
+    // the connection attempt the authenticator is working for (attempts never overlap: C11); -1 = re-authentication on an
+    // established connection. server_final of a handshake is requested by the handler that logged the CONNACK.
+    bool hs_phase;
+    if (step == 2) hs_phase = (connack_log_step == w.steps);
+    else if (in_reauth_call) hs_phase = false;
+    else { hs_phase = true; for (auto& l : logs) if (l.k == LogRec::connack && l.rc == 0 && !net.conns.empty() && l.seq > net.conns.back()->seq_begin) hs_phase = false; }
+    r.ec = hs_phase ? (int)net.conns.size() - 1 : -1;
+    logs.push_back(r);
     return {fail, "a" + std::to_string(step) + ":" + data.substr(0, 8)};
 }
 
@@ -362,7 +372,7 @@ void Sim::exec_step(const Step& s, ns_t* next_override) {
         break;
     }
     case SK::ReAuth:
-        if (client && running) client->re_authenticate();
+        if (client && running) { in_reauth_call = true; client->re_authenticate(); in_reauth_call = false; }
         break;
     case SK::BrokerPublish:
         broker.publish((uint8_t)s.a, s.s1, s.s2, s.props, s.b != 0);
@@ -415,6 +425,7 @@ void Sim::exec_step(const Step& s, ns_t* next_override) {
     case SK::FHandshake:
         if (healed) break;
         for (int i = 0; i < std::max(1, s.c); ++i) broker.hs_script.push_back({(bk::HsMode)(s.a % 7), (uint8_t)s.b});
+        if (s.d > 0) auth_fail_step = (s.d - 1) % 3;      // the authenticator reports failure at its next step of this kind
         break;
     case SK::FSessionPresent:
         if (healed) break;
